@@ -267,7 +267,9 @@ def world_op(j):
     if do == "find_paths":
         return sorted(FindInPaths(config).find(j["s"], as_sid=False))
     if do == "find_all":
-        return sorted(FindInAll().find(j["s"], as_sid=False))
+        # "all_config": the name handed to get_finder_for (it selects a SET of Finders; the shipped data
+        # configuration builds the same set for every name)
+        return sorted(FindInAll(j.get("all_config")).find(j["s"], as_sid=False))
     x = Sid(j["sid"])
     if do == "sid_exists":
         return bool(x.exists())
